@@ -44,6 +44,7 @@ type VerifC17Opts struct {
 	ExternalDNS    bool
 	OIDC           bool
 	RepoRoot       string // where the templates live
+	WatchNamespace string // "" = all namespaces (one informer group under key ""); else only this namespace is watched (-watch-namespace)
 }
 
 // VerifC17Templates holds the parsed templates (parsed once per flavour, shared).
@@ -155,7 +156,7 @@ func NewVerifC17(o VerifC17Opts, tm *VerifC17Templates) *VerifC17 {
 		enableOIDC:                   o.OIDC,
 		areCustomResourcesEnabled:    true,
 		isNginxReady:                 true,
-		namespacedInformers:          map[string]*namespacedInformer{"": nsi},
+		namespacedInformers:          map[string]*namespacedInformer{o.WatchNamespace: nsi},
 		globalConfigurationLister:    store(),
 		configurator:                 cnf,
 		secretStore:                  secrets.NewLocalSecretStore(cnf),
